@@ -862,6 +862,7 @@ def gen_prog(rnd, style, size):
 
 STYLES = ["plain", "unnamed", "seeded", "dup", "cycle", "groups", "copy", "premut", "foreign", "livecopy", "reuse", "resnames", "rename", "auto", "dropped", "manynames"]
 MIN_PER_STYLE = {"quick": 12, "thorough": 120}
+STYLE_COUNT = {"auto": {"quick": 10, "thorough": 40}, "manynames": {"quick": 8, "thorough": 40}}
 
 
 def concretise(run, op, rnd):
@@ -1022,8 +1023,9 @@ def generate(ctx):
         for f in sorted(os.listdir(cdir)):
             if f.startswith("C15") and f.endswith(".json"):
                 progs.append(json.load(open(os.path.join(cdir, f))))
-    per = MIN_PER_STYLE[ctx.tier]
     for style in STYLES:
+        # the auto-transform programs run real tfp bijectors (~1-2 s per build), the many-names programs are large
+        per = STYLE_COUNT.get(style, MIN_PER_STYLE)[ctx.tier]
         for j in range(per):
             size = rnd.choice([3, 4, 5, 6, 8] if ctx.quick else [3, 4, 6, 8, 10, 12])
             progs.append(gen_prog(rnd, style, size))
